@@ -197,7 +197,7 @@ def run(F, R, tier):
         for n in b["_nodes"]:
             if n.get("k") == "LetStmt" and "init" in n and mentions_call(n["init"], ["fast_insecure_hash"]):
                 shapes.append((b["path"].split("::")[-1], n, hash_shape(F, n["init"])))
-    R.floor("C12-c source-hash computations", len(shapes), 3)
+    R.floor("C12-c source-hash computations", len(shapes), 2)
     if shapes:
         ref = shapes[-1][2]
         for nm, n, sh in shapes:
